@@ -146,15 +146,17 @@ func c20Op(r *sim.Run) c20op {
 	case 13:
 		// nested concat: exercises the flattening of Iterator.concat
 		return c20op{"Concat(Concat)", func(it fp.Iterator[int]) fp.Iterator[int] {
-				tail := iterator.Empty[int]().Concat(iterator.Of(700)).Concat(iterator.Empty[int]()).Concat(iterator.Of(701, 702))
-				return it.Concat(tail)
-			}, func(xs []int) []int {
-				return append(slices.Clone(xs), 700, 701, 702)
-			}}
+			tail := iterator.Empty[int]().Concat(iterator.Of(700)).Concat(iterator.Empty[int]()).Concat(iterator.Of(701, 702))
+			return it.Concat(tail)
+		}, func(xs []int) []int {
+			return append(slices.Clone(xs), 700, 701, 702)
+		}}
 	case 14:
 		return c20op{"iterator.Concat(head)", func(it fp.Iterator[int]) fp.Iterator[int] { return iterator.Concat(600+a, it) }, func(xs []int) []int { return append([]int{600 + a}, xs...) }}
 	case 15:
-		return c20op{"Scan", func(it fp.Iterator[int]) fp.Iterator[int] { return iterator.Scan(it, a, func(acc, v int) int { return acc + v }) }, func(xs []int) []int {
+		return c20op{"Scan", func(it fp.Iterator[int]) fp.Iterator[int] {
+			return iterator.Scan(it, a, func(acc, v int) int { return acc + v })
+		}, func(xs []int) []int {
 			out := []int{a}
 			s := a
 			for _, v := range xs {
@@ -165,27 +167,27 @@ func c20Op(r *sim.Run) c20op {
 		}}
 	case 16:
 		return c20op{"ZipWithIndex", func(it fp.Iterator[int]) fp.Iterator[int] {
-				return iterator.Map(iterator.ZipWithIndex(it), func(t fp.Tuple2[int, int]) int { return t.I1*10000 + t.I2 })
-			}, func(xs []int) []int {
-				out := []int{}
-				for i, v := range xs {
-					out = append(out, i*10000+v)
-				}
-				return out
-			}}
+			return iterator.Map(iterator.ZipWithIndex(it), func(t fp.Tuple2[int, int]) int { return t.I1*10000 + t.I2 })
+		}, func(xs []int) []int {
+			out := []int{}
+			for i, v := range xs {
+				out = append(out, i*10000+v)
+			}
+			return out
+		}}
 	case 17:
 		return c20op{"Zip(Range)", func(it fp.Iterator[int]) fp.Iterator[int] {
-				return iterator.Map(iterator.Zip(it, iterator.Range(0, 3+a)), func(t fp.Tuple2[int, int]) int { return t.I1*7 + t.I2 })
-			}, func(xs []int) []int {
-				out := []int{}
-				for i, v := range xs {
-					if i >= 3+a {
-						break
-					}
-					out = append(out, v*7+i)
+			return iterator.Map(iterator.Zip(it, iterator.Range(0, 3+a)), func(t fp.Tuple2[int, int]) int { return t.I1*7 + t.I2 })
+		}, func(xs []int) []int {
+			out := []int{}
+			for i, v := range xs {
+				if i >= 3+a {
+					break
 				}
-				return out
-			}}
+				out = append(out, v*7+i)
+			}
+			return out
+		}}
 	case 18:
 		fm := func(v int) fp.Option[int] {
 			if v%2 == 0 {
@@ -204,29 +206,29 @@ func c20Op(r *sim.Run) c20op {
 		}}
 	case 19:
 		return c20op{"Flatten", func(it fp.Iterator[int]) fp.Iterator[int] {
-				return iterator.Flatten(iterator.Map(it, func(v int) fp.Iterator[int] { return iterator.Of(v, v) }))
-			}, func(xs []int) []int {
-				out := []int{}
-				for _, v := range xs {
-					out = append(out, v, v)
-				}
-				return out
-			}}
+			return iterator.Flatten(iterator.Map(it, func(v int) fp.Iterator[int] { return iterator.Of(v, v) }))
+		}, func(xs []int) []int {
+			out := []int{}
+			for _, v := range xs {
+				out = append(out, v, v)
+			}
+			return out
+		}}
 	case 20:
 		return c20op{"Lift", func(it fp.Iterator[int]) fp.Iterator[int] { return iterator.Lift(mapf)(it) }, func(xs []int) []int { return refMap(xs, mapf) }}
 	default:
 		return c20op{"Zip3", func(it fp.Iterator[int]) fp.Iterator[int] {
-				return iterator.Map(iterator.Zip3(iterator.Range(0, 100), it, iterator.Range(5, 5+2+a)), func(t fp.Tuple3[int, int, int]) int { return t.I1*100000 + t.I2*100 + t.I3 })
-			}, func(xs []int) []int {
-				out := []int{}
-				for i, v := range xs {
-					if i >= 2+a {
-						break
-					}
-					out = append(out, i*100000+v*100+5+i)
+			return iterator.Map(iterator.Zip3(iterator.Range(0, 100), it, iterator.Range(5, 5+2+a)), func(t fp.Tuple3[int, int, int]) int { return t.I1*100000 + t.I2*100 + t.I3 })
+		}, func(xs []int) []int {
+			out := []int{}
+			for i, v := range xs {
+				if i >= 2+a {
+					break
 				}
-				return out
-			}}
+				out = append(out, i*100000+v*100+5+i)
+			}
+			return out
+		}}
 	}
 }
 
@@ -828,7 +830,9 @@ func c20Zero(r *sim.Run) {
 		{"Filter", func() string { return empty(z.Filter(pt)) }},
 		{"FilterNot", func() string { return empty(z.FilterNot(pt)) }},
 		{"Map", func() string { return empty(z.Map(func(v int) int { called++; return v })) }},
-		{"FlatMap", func() string { return empty(z.FlatMap(func(v int) fp.Iterator[int] { called++; return iterator.Of(v) })) }},
+		{"FlatMap", func() string {
+			return empty(z.FlatMap(func(v int) fp.Iterator[int] { called++; return iterator.Of(v) }))
+		}},
 		{"TapEach", func() string { return empty(z.TapEach(cnt)) }},
 		{"Concat(zero)", func() string { return empty(z.Concat(fp.Iterator[int]{})) }},
 		{"Concat(Of)", func() string { return fmt.Sprint(z.Concat(iterator.Of(1, 2)).ToSeq()) + "=[1 2]" }},
